@@ -106,6 +106,37 @@ def timedJson (e : Ev) (t : Rat) : Json :=
   | .arr xs => .arr (xs ++ [ratJson t])
   | j => j
 
+/-- a frame: ["d", m] | ["e", m, name, path] | ["q", m, ev] | ["n", status] | ["a", m] -/
+def frJson : BFr → Json
+  | .deliver m => .arr [.str (S "d"), .num m]
+  | .pubEv m n p => .arr [.str (S "e"), .num m, .str n, .arr (p.map (fun (i : Nat) => Json.num (i : Int)))]
+  | .pubReq m e => .arr [.str (S "q"), .num m, .num e]
+  | .pubNote s => .arr [.str (S "n"), .str s]
+  | .ack m => .arr [.str (S "a"), .num m]
+
+/-- a step: [t_ms, early, [frames]] -/
+def stepJson (s : BStep) : Json := .arr [ratJson s.t, .bool s.early, .arr (s.frames.map frJson)]
+
+mutual
+/-- a visit of the skeleton: "S" | "F" | "W" | "Q" (a Task without request) | "T" | "X" | "P" (a fan-out that launched
+nothing) | {"par": [[…], …], "mc": n} -/
+def tokJson : Tok → Json
+  | .s => .str (S "S")
+  | .f => .str (S "F")
+  | .w => .str (S "W")
+  | .tq => .str (S "Q")
+  | .t => .str (S "T")
+  | .x => .str (S "X")
+  | .fan => .str (S "P")
+  | .par mc bs => .obj [(S "par", .arr (toksJsonL bs)), (S "mc", .num mc)]
+def toksJson : List Tok → List Json
+  | [] => []
+  | t :: ts => tokJson t :: toksJson ts
+def toksJsonL : List (List Tok) → List Json
+  | [] => []
+  | b :: bs => .arr (toksJson b) :: toksJsonL bs
+end
+
 def outcomeJson (o : Outcome) : Json :=
   .obj [(S "status", .str o.status), (S "output", optJ o.output),
         (S "error", match o.error with | some e => .str e | none => .null),
@@ -113,7 +144,9 @@ def outcomeJson (o : Outcome) : Json :=
         (S "trace", .arr (o.trace.map .str)), (S "multiFail", .bool o.multiFail), (S "tieFail", .bool o.tieFail),
         (S "log", .arr (o.log.filterMap evShort)), (S "requests", .num o.requests), (S "fanFail", .bool o.fanFail),
         (S "history", .arr (List.zipWith timedJson o.history o.times)), (S "endTime", ratJson o.endTime),
-        (S "notifications", .arr (o.notifications.map (fun n => .arr [.str n.1, n.2])))]
+        (S "notifications", .arr (o.notifications.map (fun n => .arr [.str n.1, n.2]))),
+        (S "steps", .arr (o.steps.map stepJson)), (S "tieJoin", .bool o.tieJoin), (S "late", .bool o.late),
+        (S "sk", .arr (toksJson o.sk))]
 
 mutual
 /-- every payload template and every Choice rule of the definition is inside what the full
